@@ -19,6 +19,7 @@ Core Lean only.
 import StirVerif.Gen.Kernels
 import StirVerif.C01.Model
 import StirVerif.C06.Model
+import StirVerif.C03.Model
 
 namespace StirVerif.Gen
 open StirVerif
@@ -87,5 +88,225 @@ theorem bridge_ax_pos_num (sg : C01.Seg) (off r1 r2 inc : Int) (hinc : inc = sg.
     ax_pos_num r1 r2 off inc = sg.axOf off r1 r2 := by
   subst hinc
   simp only [ax_pos_num, C01.Seg.axOf, Id.run, pure_id]
+
+
+/-! ## C03: the symmetry-operation classes of `SymmetryOperations_PET_CartesianGrid.inl`
+
+One bridge per member function: the function body translated from the source equals the corresponding case of
+`C03.SymOp.onBin` / `onVS` / `onVoxel`, for all integers and for every value of the constructor arguments the
+function does not read. -/
+
+macro "so_bridge" : tactic =>
+  `(tactic| (simp only [C03.SymOp.onBin, C03.SymOp.onVS, C03.SymOp.onVoxel, Id.run, pure_id, decide_eq_true_eq, bne_iff_ne, ne_eq,
+               Int.mul_neg, Int.mul_one, Int.neg_mul, Int.one_mul]
+             <;> (repeat' split) <;> (first | rfl | (simp_all <;> omega) | (simp_all) | omega)))
+
+theorem bridge_so_z_shift_bin (V a zs q seg view ax tang tof : Int) :
+    so_z_shift_bin V a seg view ax tang tof =
+      (let r := (⟨.z_shift, V, a, zs, q⟩ : C03.SymOp).onBin ⟨seg, view, ax, tang, tof⟩; (r.seg, r.view, r.ax, r.tang, r.tof)) := by
+  unfold so_z_shift_bin; so_bridge
+
+theorem bridge_so_z_shift_vs (V a zs q seg view : Int) :
+    so_z_shift_vs V seg view = (let r := (⟨.z_shift, V, a, zs, q⟩ : C03.SymOp).onVS ⟨view, seg⟩; (r.seg, r.view)) := by
+  unfold so_z_shift_vs; so_bridge
+
+theorem bridge_so_z_shift_img (V a zs q z y x : Int) :
+    so_z_shift_img zs q z y x = (let r := (⟨.z_shift, V, a, zs, q⟩ : C03.SymOp).onVoxel ⟨z, y, x⟩; (r.z, r.y, r.x)) := by
+  unfold so_z_shift_img; so_bridge
+
+theorem bridge_so_swap_xmx_zq_bin (V a zs q seg view ax tang tof : Int) :
+    so_swap_xmx_zq_bin V a seg view ax tang tof =
+      (let r := (⟨.swap_xmx_zq, V, a, zs, q⟩ : C03.SymOp).onBin ⟨seg, view, ax, tang, tof⟩; (r.seg, r.view, r.ax, r.tang, r.tof)) := by
+  unfold so_swap_xmx_zq_bin; so_bridge
+
+theorem bridge_so_swap_xmx_zq_vs (V a zs q seg view : Int) :
+    so_swap_xmx_zq_vs V seg view = (let r := (⟨.swap_xmx_zq, V, a, zs, q⟩ : C03.SymOp).onVS ⟨view, seg⟩; (r.seg, r.view)) := by
+  unfold so_swap_xmx_zq_vs; so_bridge
+
+theorem bridge_so_swap_xmx_zq_img (V a zs q z y x : Int) :
+    so_swap_xmx_zq_img zs q z y x = (let r := (⟨.swap_xmx_zq, V, a, zs, q⟩ : C03.SymOp).onVoxel ⟨z, y, x⟩; (r.z, r.y, r.x)) := by
+  unfold so_swap_xmx_zq_img; so_bridge
+
+theorem bridge_so_swap_xmy_yx_zq_bin (V a zs q seg view ax tang tof : Int) :
+    so_swap_xmy_yx_zq_bin V a seg view ax tang tof =
+      (let r := (⟨.swap_xmy_yx_zq, V, a, zs, q⟩ : C03.SymOp).onBin ⟨seg, view, ax, tang, tof⟩; (r.seg, r.view, r.ax, r.tang, r.tof)) := by
+  unfold so_swap_xmy_yx_zq_bin; so_bridge
+
+theorem bridge_so_swap_xmy_yx_zq_vs (V a zs q seg view : Int) :
+    so_swap_xmy_yx_zq_vs V seg view = (let r := (⟨.swap_xmy_yx_zq, V, a, zs, q⟩ : C03.SymOp).onVS ⟨view, seg⟩; (r.seg, r.view)) := by
+  unfold so_swap_xmy_yx_zq_vs; so_bridge
+
+theorem bridge_so_swap_xmy_yx_zq_img (V a zs q z y x : Int) :
+    so_swap_xmy_yx_zq_img zs q z y x = (let r := (⟨.swap_xmy_yx_zq, V, a, zs, q⟩ : C03.SymOp).onVoxel ⟨z, y, x⟩; (r.z, r.y, r.x)) := by
+  unfold so_swap_xmy_yx_zq_img; so_bridge
+
+theorem bridge_so_swap_xy_yx_zq_bin (V a zs q seg view ax tang tof : Int) :
+    so_swap_xy_yx_zq_bin V a seg view ax tang tof =
+      (let r := (⟨.swap_xy_yx_zq, V, a, zs, q⟩ : C03.SymOp).onBin ⟨seg, view, ax, tang, tof⟩; (r.seg, r.view, r.ax, r.tang, r.tof)) := by
+  unfold so_swap_xy_yx_zq_bin; so_bridge
+
+theorem bridge_so_swap_xy_yx_zq_vs (V a zs q seg view : Int) :
+    so_swap_xy_yx_zq_vs V seg view = (let r := (⟨.swap_xy_yx_zq, V, a, zs, q⟩ : C03.SymOp).onVS ⟨view, seg⟩; (r.seg, r.view)) := by
+  unfold so_swap_xy_yx_zq_vs; so_bridge
+
+theorem bridge_so_swap_xy_yx_zq_img (V a zs q z y x : Int) :
+    so_swap_xy_yx_zq_img zs q z y x = (let r := (⟨.swap_xy_yx_zq, V, a, zs, q⟩ : C03.SymOp).onVoxel ⟨z, y, x⟩; (r.z, r.y, r.x)) := by
+  unfold so_swap_xy_yx_zq_img; so_bridge
+
+theorem bridge_so_swap_xmy_yx_bin (V a zs q seg view ax tang tof : Int) :
+    so_swap_xmy_yx_bin V a seg view ax tang tof =
+      (let r := (⟨.swap_xmy_yx, V, a, zs, q⟩ : C03.SymOp).onBin ⟨seg, view, ax, tang, tof⟩; (r.seg, r.view, r.ax, r.tang, r.tof)) := by
+  unfold so_swap_xmy_yx_bin; so_bridge
+
+theorem bridge_so_swap_xmy_yx_vs (V a zs q seg view : Int) :
+    so_swap_xmy_yx_vs V seg view = (let r := (⟨.swap_xmy_yx, V, a, zs, q⟩ : C03.SymOp).onVS ⟨view, seg⟩; (r.seg, r.view)) := by
+  unfold so_swap_xmy_yx_vs; so_bridge
+
+theorem bridge_so_swap_xmy_yx_img (V a zs q z y x : Int) :
+    so_swap_xmy_yx_img zs q z y x = (let r := (⟨.swap_xmy_yx, V, a, zs, q⟩ : C03.SymOp).onVoxel ⟨z, y, x⟩; (r.z, r.y, r.x)) := by
+  unfold so_swap_xmy_yx_img; so_bridge
+
+theorem bridge_so_swap_xy_yx_bin (V a zs q seg view ax tang tof : Int) :
+    so_swap_xy_yx_bin V a seg view ax tang tof =
+      (let r := (⟨.swap_xy_yx, V, a, zs, q⟩ : C03.SymOp).onBin ⟨seg, view, ax, tang, tof⟩; (r.seg, r.view, r.ax, r.tang, r.tof)) := by
+  unfold so_swap_xy_yx_bin; so_bridge
+
+theorem bridge_so_swap_xy_yx_vs (V a zs q seg view : Int) :
+    so_swap_xy_yx_vs V seg view = (let r := (⟨.swap_xy_yx, V, a, zs, q⟩ : C03.SymOp).onVS ⟨view, seg⟩; (r.seg, r.view)) := by
+  unfold so_swap_xy_yx_vs; so_bridge
+
+theorem bridge_so_swap_xy_yx_img (V a zs q z y x : Int) :
+    so_swap_xy_yx_img zs q z y x = (let r := (⟨.swap_xy_yx, V, a, zs, q⟩ : C03.SymOp).onVoxel ⟨z, y, x⟩; (r.z, r.y, r.x)) := by
+  unfold so_swap_xy_yx_img; so_bridge
+
+theorem bridge_so_swap_xmx_bin (V a zs q seg view ax tang tof : Int) :
+    so_swap_xmx_bin V a seg view ax tang tof =
+      (let r := (⟨.swap_xmx, V, a, zs, q⟩ : C03.SymOp).onBin ⟨seg, view, ax, tang, tof⟩; (r.seg, r.view, r.ax, r.tang, r.tof)) := by
+  unfold so_swap_xmx_bin; so_bridge
+
+theorem bridge_so_swap_xmx_vs (V a zs q seg view : Int) :
+    so_swap_xmx_vs V seg view = (let r := (⟨.swap_xmx, V, a, zs, q⟩ : C03.SymOp).onVS ⟨view, seg⟩; (r.seg, r.view)) := by
+  unfold so_swap_xmx_vs; so_bridge
+
+theorem bridge_so_swap_xmx_img (V a zs q z y x : Int) :
+    so_swap_xmx_img zs q z y x = (let r := (⟨.swap_xmx, V, a, zs, q⟩ : C03.SymOp).onVoxel ⟨z, y, x⟩; (r.z, r.y, r.x)) := by
+  unfold so_swap_xmx_img; so_bridge
+
+theorem bridge_so_swap_ymy_bin (V a zs q seg view ax tang tof : Int) :
+    so_swap_ymy_bin V a seg view ax tang tof =
+      (let r := (⟨.swap_ymy, V, a, zs, q⟩ : C03.SymOp).onBin ⟨seg, view, ax, tang, tof⟩; (r.seg, r.view, r.ax, r.tang, r.tof)) := by
+  unfold so_swap_ymy_bin; so_bridge
+
+theorem bridge_so_swap_ymy_vs (V a zs q seg view : Int) :
+    so_swap_ymy_vs V seg view = (let r := (⟨.swap_ymy, V, a, zs, q⟩ : C03.SymOp).onVS ⟨view, seg⟩; (r.seg, r.view)) := by
+  unfold so_swap_ymy_vs; so_bridge
+
+theorem bridge_so_swap_ymy_img (V a zs q z y x : Int) :
+    so_swap_ymy_img zs q z y x = (let r := (⟨.swap_ymy, V, a, zs, q⟩ : C03.SymOp).onVoxel ⟨z, y, x⟩; (r.z, r.y, r.x)) := by
+  unfold so_swap_ymy_img; so_bridge
+
+theorem bridge_so_swap_zq_bin (V a zs q seg view ax tang tof : Int) :
+    so_swap_zq_bin V a seg view ax tang tof =
+      (let r := (⟨.swap_zq, V, a, zs, q⟩ : C03.SymOp).onBin ⟨seg, view, ax, tang, tof⟩; (r.seg, r.view, r.ax, r.tang, r.tof)) := by
+  unfold so_swap_zq_bin; so_bridge
+
+theorem bridge_so_swap_zq_vs (V a zs q seg view : Int) :
+    so_swap_zq_vs V seg view = (let r := (⟨.swap_zq, V, a, zs, q⟩ : C03.SymOp).onVS ⟨view, seg⟩; (r.seg, r.view)) := by
+  unfold so_swap_zq_vs; so_bridge
+
+theorem bridge_so_swap_zq_img (V a zs q z y x : Int) :
+    so_swap_zq_img zs q z y x = (let r := (⟨.swap_zq, V, a, zs, q⟩ : C03.SymOp).onVoxel ⟨z, y, x⟩; (r.z, r.y, r.x)) := by
+  unfold so_swap_zq_img; so_bridge
+
+theorem bridge_so_swap_xmx_ymy_zq_bin (V a zs q seg view ax tang tof : Int) :
+    so_swap_xmx_ymy_zq_bin V a seg view ax tang tof =
+      (let r := (⟨.swap_xmx_ymy_zq, V, a, zs, q⟩ : C03.SymOp).onBin ⟨seg, view, ax, tang, tof⟩; (r.seg, r.view, r.ax, r.tang, r.tof)) := by
+  unfold so_swap_xmx_ymy_zq_bin; so_bridge
+
+theorem bridge_so_swap_xmx_ymy_zq_vs (V a zs q seg view : Int) :
+    so_swap_xmx_ymy_zq_vs V seg view = (let r := (⟨.swap_xmx_ymy_zq, V, a, zs, q⟩ : C03.SymOp).onVS ⟨view, seg⟩; (r.seg, r.view)) := by
+  unfold so_swap_xmx_ymy_zq_vs; so_bridge
+
+theorem bridge_so_swap_xmx_ymy_zq_img (V a zs q z y x : Int) :
+    so_swap_xmx_ymy_zq_img zs q z y x = (let r := (⟨.swap_xmx_ymy_zq, V, a, zs, q⟩ : C03.SymOp).onVoxel ⟨z, y, x⟩; (r.z, r.y, r.x)) := by
+  unfold so_swap_xmx_ymy_zq_img; so_bridge
+
+theorem bridge_so_swap_xy_ymx_zq_bin (V a zs q seg view ax tang tof : Int) :
+    so_swap_xy_ymx_zq_bin V a seg view ax tang tof =
+      (let r := (⟨.swap_xy_ymx_zq, V, a, zs, q⟩ : C03.SymOp).onBin ⟨seg, view, ax, tang, tof⟩; (r.seg, r.view, r.ax, r.tang, r.tof)) := by
+  unfold so_swap_xy_ymx_zq_bin; so_bridge
+
+theorem bridge_so_swap_xy_ymx_zq_vs (V a zs q seg view : Int) :
+    so_swap_xy_ymx_zq_vs V seg view = (let r := (⟨.swap_xy_ymx_zq, V, a, zs, q⟩ : C03.SymOp).onVS ⟨view, seg⟩; (r.seg, r.view)) := by
+  unfold so_swap_xy_ymx_zq_vs; so_bridge
+
+theorem bridge_so_swap_xy_ymx_zq_img (V a zs q z y x : Int) :
+    so_swap_xy_ymx_zq_img zs q z y x = (let r := (⟨.swap_xy_ymx_zq, V, a, zs, q⟩ : C03.SymOp).onVoxel ⟨z, y, x⟩; (r.z, r.y, r.x)) := by
+  unfold so_swap_xy_ymx_zq_img; so_bridge
+
+theorem bridge_so_swap_xy_ymx_bin (V a zs q seg view ax tang tof : Int) :
+    so_swap_xy_ymx_bin V a seg view ax tang tof =
+      (let r := (⟨.swap_xy_ymx, V, a, zs, q⟩ : C03.SymOp).onBin ⟨seg, view, ax, tang, tof⟩; (r.seg, r.view, r.ax, r.tang, r.tof)) := by
+  unfold so_swap_xy_ymx_bin; so_bridge
+
+theorem bridge_so_swap_xy_ymx_vs (V a zs q seg view : Int) :
+    so_swap_xy_ymx_vs V seg view = (let r := (⟨.swap_xy_ymx, V, a, zs, q⟩ : C03.SymOp).onVS ⟨view, seg⟩; (r.seg, r.view)) := by
+  unfold so_swap_xy_ymx_vs; so_bridge
+
+theorem bridge_so_swap_xy_ymx_img (V a zs q z y x : Int) :
+    so_swap_xy_ymx_img zs q z y x = (let r := (⟨.swap_xy_ymx, V, a, zs, q⟩ : C03.SymOp).onVoxel ⟨z, y, x⟩; (r.z, r.y, r.x)) := by
+  unfold so_swap_xy_ymx_img; so_bridge
+
+theorem bridge_so_swap_xmy_ymx_bin (V a zs q seg view ax tang tof : Int) :
+    so_swap_xmy_ymx_bin V a seg view ax tang tof =
+      (let r := (⟨.swap_xmy_ymx, V, a, zs, q⟩ : C03.SymOp).onBin ⟨seg, view, ax, tang, tof⟩; (r.seg, r.view, r.ax, r.tang, r.tof)) := by
+  unfold so_swap_xmy_ymx_bin; so_bridge
+
+theorem bridge_so_swap_xmy_ymx_vs (V a zs q seg view : Int) :
+    so_swap_xmy_ymx_vs V seg view = (let r := (⟨.swap_xmy_ymx, V, a, zs, q⟩ : C03.SymOp).onVS ⟨view, seg⟩; (r.seg, r.view)) := by
+  unfold so_swap_xmy_ymx_vs; so_bridge
+
+theorem bridge_so_swap_xmy_ymx_img (V a zs q z y x : Int) :
+    so_swap_xmy_ymx_img zs q z y x = (let r := (⟨.swap_xmy_ymx, V, a, zs, q⟩ : C03.SymOp).onVoxel ⟨z, y, x⟩; (r.z, r.y, r.x)) := by
+  unfold so_swap_xmy_ymx_img; so_bridge
+
+theorem bridge_so_swap_ymy_zq_bin (V a zs q seg view ax tang tof : Int) :
+    so_swap_ymy_zq_bin V a seg view ax tang tof =
+      (let r := (⟨.swap_ymy_zq, V, a, zs, q⟩ : C03.SymOp).onBin ⟨seg, view, ax, tang, tof⟩; (r.seg, r.view, r.ax, r.tang, r.tof)) := by
+  unfold so_swap_ymy_zq_bin; so_bridge
+
+theorem bridge_so_swap_ymy_zq_vs (V a zs q seg view : Int) :
+    so_swap_ymy_zq_vs V seg view = (let r := (⟨.swap_ymy_zq, V, a, zs, q⟩ : C03.SymOp).onVS ⟨view, seg⟩; (r.seg, r.view)) := by
+  unfold so_swap_ymy_zq_vs; so_bridge
+
+theorem bridge_so_swap_ymy_zq_img (V a zs q z y x : Int) :
+    so_swap_ymy_zq_img zs q z y x = (let r := (⟨.swap_ymy_zq, V, a, zs, q⟩ : C03.SymOp).onVoxel ⟨z, y, x⟩; (r.z, r.y, r.x)) := by
+  unfold so_swap_ymy_zq_img; so_bridge
+
+theorem bridge_so_swap_xmx_ymy_bin (V a zs q seg view ax tang tof : Int) :
+    so_swap_xmx_ymy_bin V a seg view ax tang tof =
+      (let r := (⟨.swap_xmx_ymy, V, a, zs, q⟩ : C03.SymOp).onBin ⟨seg, view, ax, tang, tof⟩; (r.seg, r.view, r.ax, r.tang, r.tof)) := by
+  unfold so_swap_xmx_ymy_bin; so_bridge
+
+theorem bridge_so_swap_xmx_ymy_vs (V a zs q seg view : Int) :
+    so_swap_xmx_ymy_vs V seg view = (let r := (⟨.swap_xmx_ymy, V, a, zs, q⟩ : C03.SymOp).onVS ⟨view, seg⟩; (r.seg, r.view)) := by
+  unfold so_swap_xmx_ymy_vs; so_bridge
+
+theorem bridge_so_swap_xmx_ymy_img (V a zs q z y x : Int) :
+    so_swap_xmx_ymy_img zs q z y x = (let r := (⟨.swap_xmx_ymy, V, a, zs, q⟩ : C03.SymOp).onVoxel ⟨z, y, x⟩; (r.z, r.y, r.x)) := by
+  unfold so_swap_xmx_ymy_img; so_bridge
+
+theorem bridge_so_swap_xmy_ymx_zq_bin (V a zs q seg view ax tang tof : Int) :
+    so_swap_xmy_ymx_zq_bin V a seg view ax tang tof =
+      (let r := (⟨.swap_xmy_ymx_zq, V, a, zs, q⟩ : C03.SymOp).onBin ⟨seg, view, ax, tang, tof⟩; (r.seg, r.view, r.ax, r.tang, r.tof)) := by
+  unfold so_swap_xmy_ymx_zq_bin; so_bridge
+
+theorem bridge_so_swap_xmy_ymx_zq_vs (V a zs q seg view : Int) :
+    so_swap_xmy_ymx_zq_vs V seg view = (let r := (⟨.swap_xmy_ymx_zq, V, a, zs, q⟩ : C03.SymOp).onVS ⟨view, seg⟩; (r.seg, r.view)) := by
+  unfold so_swap_xmy_ymx_zq_vs; so_bridge
+
+theorem bridge_so_swap_xmy_ymx_zq_img (V a zs q z y x : Int) :
+    so_swap_xmy_ymx_zq_img zs q z y x = (let r := (⟨.swap_xmy_ymx_zq, V, a, zs, q⟩ : C03.SymOp).onVoxel ⟨z, y, x⟩; (r.z, r.y, r.x)) := by
+  unfold so_swap_xmy_ymx_zq_img; so_bridge
 
 end StirVerif.Gen
